@@ -10,7 +10,48 @@ ALL = ['C%02d' % i for i in range(1, 24)]
 TECH = 'contract-based deductive verification of the real code (Kani/CBMC pre/post obligations per function)'
 
 # property -> (level category, level text, level note, design ref)
+SEQ_NOTE = ('Trusts Kani/CBMC/kissat/CaDiCaL and that Kani\'s nightly compiles the code as Rust 1.95 does; log macros compiled out; '
+            'callee contracts used as stubs are each discharged by their own obligation (listed in the evidence); sequential execution of atomics; '
+            'configuration bound: default geometry, 1 tree at the lower level / 2 trees and <= 3 classes at the allocator level in the quick tier.')
+def P(text, ref, note=SEQ_NOTE, cat='proof'):
+    return (cat, text, note, ref)
 CLAIMS = {
+    'C01': P('Sequential part: contracts on Lower::get/get_at/put (block aligned, in range, entirely free before, exactly it marked) and on every allocator-level '
+             'allocation path (a success returns the block of its one lower-level allocation), discharged for all states under the representation invariants. '
+             'The all-interleavings part is NOT decided in this revision (see DESIGN.md 4 and 10).', 'DESIGN.md 6 C01'),
+    'C02': P('The ownership-model clauses of the statement are the postconditions of Lower::put/get/get_at (all bit states of a tree, every order) and of LLFree::put/get (all '
+             'counter states under invariant I); initialisation establishes the invariants (C06 obligations), every operation preserves them, so they hold after every history.', 'DESIGN.md 6 C02'),
+    'C04': P('Invariant I (tree counter + slot counter == frames free below; reserved <=> one slot holds the tree) and wf_lower (counter == zeros) are preserved by every public operation; '
+             'stats/stats_at/is_free/tree_stats/validate are proved to agree with the abstract view under them. Sequential/quiescent-after-sequential only.', 'DESIGN.md 6 C04'),
+    'C05': P('Lower::recover from ANY persistent state keeps the allocation status of every frame and establishes wf_lower, for every frame count (partial last tree included). '
+             'Crash points inside a call and the rebuilt upper level are not covered in this revision.', 'DESIGN.md 6 C05'),
+    'C06': P('Lower::free_all / reserve_all for EVERY frame count with 1..4 bitfields (symbolic count), exact resulting pattern, nothing written outside; frame count 0.', 'DESIGN.md 6 C06'),
+    'C07': P('Assume-initialized construction writes no byte of arbitrary buffers and yields the configured shape; metadata() returns the buffers passed in. '
+             'Equality of later behaviour rests on determinism of sequential Rust (assumption).', 'DESIGN.md 6 C07'),
+    'C08': P('LLFree::check over the full usize domain; LLFree::put rejects invalid arguments without side effects; construction rejects every too-small / misaligned / overlapping '
+             'buffer layout; ZoneAlloc rejects frames below its offset.', 'DESIGN.md 6 C08'),
+    'C09': P('"No panic" is a side obligation of every discharged contract (Kani checks every reachable panic, overflow, index): all lower operations for all states under wf_lower, '
+             'all allocator-level paths under invariant I for every kind-policy incl. zero-slot classes, init with 0 frames, recovery with partial trees.', 'DESIGN.md 6 C09'),
+    'C10': P('Targeted allocation at the lower level succeeds iff the block is free (all states); drain returns every slot counter and leaves no tree reserved. '
+             'The allocator-level completeness of the search ("fails only when nothing is free") is not decided in this revision.', 'DESIGN.md 6 C10'),
+    'C11': P('Contract of Tree::sync_steal taken from the statement (succeeds iff reserved and global counter >= missing frames) over all tree words, and get_local preserves I. '
+             'The end-to-end completeness over the search is not decided in this revision.', 'DESIGN.md 6 C11'),
+    'C12': P('set_first_zeros for all 2^512 bitfield states and every order (Err iff no aligned free block, via a universally quantified witness), lifted to Lower::get over all '
+             'states of a tree under wf_lower, every start hint, every order.', 'DESIGN.md 6 C12'),
+    'C13': P('Tree::steal / reserve_or_steal over all tree words and every pure policy; every allocator-level allocation path returns the requested class or one rated Match/Steal '
+             '(generic helper contract G, all states under I, every kind-policy).', 'DESIGN.md 6 C13'),
+    'C14': P('tree_stats under invariant I: class free counts sum to the fast total; class totals equal trees*TREE_FRAMES when no reservation holds free frames; the case with '
+             'reservations is a recorded known finding.', 'DESIGN.md 6 C14'),
+    'C15': P('Tree::change over all words/matchers; change_tree applies to at most one matching unreserved tree, offline empties and online restores the exact count; every allocation '
+             'path returns only frames of trees that are not offline (contract G).', 'DESIGN.md 6 C15'),
+    'C16': P('SortedBuffer::add inductive step for capacities 1..8 over any sorted-prefix state (=> every insertion sequence); search_best tries the N best-rated candidates best first.', 'DESIGN.md 6 C16'),
+    'C17': P('ZoneAlloc translation against an inner allocator with arbitrary behaviour (contract stub). The persistent wrapper (NvmAlloc) is not covered in this revision.', 'DESIGN.md 6 C17'),
+    'C18': P('CBMC pointer-validity, bounds and arithmetic checks are discharged inside every obligation; specific: metadata size computation, slices carved by LLFree::new for arbitrary '
+             'buffer layouts, initialisation writes nothing outside. Sequential only; data races and weak memory are outside Kani.', 'DESIGN.md 6 C18'),
+    'C19': P('Count::to_local against to_count over all usize; ClassingConfig::request for 1..4 classes, every Count kind, any order window, all order/core/cores/pid/gfp values.', 'DESIGN.md 6 C19',
+             note='GfpMatch::matches is replaced by an arbitrary boolean (assumed: pure, terminating); class ids distinct; cores >= 1.'),
+    'C21': P('Without interference Atom::try_update/update run their closure exactly once (unwinding bound of one retry discharged); spin_wait polls at most RETRIES times; every loop of every '
+             'obligation exits within its unwinding bound. The mid-call freeze obligation is not covered in this revision.', 'DESIGN.md 6 C21'),
     'C23': ('proof',
             'Contract on first_zeros_aligned (postcondition transcribed from the statement) discharged by Kani/CBMC for all 2^64 '
             'rows, one loop-free obligation per order 0..=6: a complete proof for the function, not a bounded run.',
@@ -22,6 +63,7 @@ CLAIMS = {
 NOT_APPLICABLE = {
     'C20': 'The logic is an unnamed region of main() in eval/src/bin/replay.rs (argument parsing, mmap of a trace, one loop body over '
            'locals): there is no function to put a contract on without editing the code under test or writing a look-alike model.',
+    'C03': 'all-interleavings property: the thread-modular rely/guarantee obligations of DESIGN.md 4 are not built in this revision; Kani has no threads, and no sequential contract decides a schedule-quantified property',
     'C22': 'llc/ is an empty directory (submodule not populated) and eval/src/llc.rs does not compile without the generated bindings: '
            'there is no C code in the tree to put a contract on.',
 }
